@@ -149,6 +149,8 @@ func exec(op string) (res string) {
 		return reduceWalk(execWalk(op))
 	case "walko":
 		return execWalk(op)
+	case "first", "firstx":
+		return execFirst(op)
 	}
 	return "bad-op"
 }
@@ -550,6 +552,9 @@ func main() {
 	}
 	// the walk tier draws after the retry tier
 	for k, v := range walkTier(r, out, tier) {
+		extra[k] = v
+	}
+	for k, v := range firstTier(r, out, tier) {
 		extra[k] = v
 	}
 	out.Close(extra)
